@@ -57,6 +57,8 @@
 //  C.Rel/RelRoute/ShiftRoute/        | read by leaves (Rel), by routers           | Rel at every leaf; Current, negative ShiftRoute:
 //   PathIsDir/Current                |                                            | NOT exercised (not used by the routing code)
 //  concurrency                       | serving only (no lock in the code)         | conc (8 goroutines, -race) on finished objects
+//  depth of routes and request paths | 31 .. 129 segments (and l-1, l, l+1, 2l+1   | deep [new] (C20-l): file routes at depth d, d-1, a
+//                                    | for every integer the package names)       | directory, default, two tiers
 //  thresholds in the anchored files  | len(s)==0, i==m / i==n in trieNode.add,    | all sides by mux-small (every pair of strings
 //                                    | routePos >= size, value == ""              | over {a,b,/}^(1..3)), seg-rand, router paths
 package main
@@ -1429,6 +1431,8 @@ func genRouterDefs(r *hx.Rng, rich bool) []RouterDef {
 	return defs
 }
 
+var deepDepths []int
+
 func genCases(seed uint64, tier string) []Case {
 	var cs []Case
 	add := func(c Case) {
@@ -1561,6 +1565,32 @@ func genCases(seed uint64, tier string) []Case {
 				{Ops: []RouterOp{{Op: "file", P: "settings", H: 11}, {Op: "file", P: "u/settings", H: 12}, {Op: "file", P: "z", H: 13}}},
 			},
 			Reqs: []Req{{"/u/settings", "GET"}, {"/u/x/settings", "GET"}, {"/v/x/z", "GET"}, {"/u/settings/", "GET"}, {"/v/x/y/z", "GET"}}})
+	}
+	// seeded change C20-l: routes and request paths deeper than any number the package
+	// might name (a route split that stops after 32 segments): depths 31, 32, 33, 40,
+	// 64, 65, 129 and whatever the translator finds (deepDepths), file routes at depth
+	// d and d-1, a directory route, a default handler, and two tiers.
+	{
+		rep := func(seg string, n int) string { return strings.TrimSuffix(strings.Repeat(seg+"/", n), "/") }
+		depths := append([]int{31, 32, 33, 40, 64, 65, 129}, deepDepths...)
+		for _, d := range depths {
+			if d < 2 {
+				continue
+			}
+			add(Case{Stream: "deep", Kind: "router",
+				Routers: []RouterDef{{Ops: []RouterOp{{Op: "file", P: rep("a", d), H: 1}, {Op: "file", P: rep("a", d-1), H: 2},
+					{Op: "dir", P: "b/" + rep("a", d-1), H: 3}, {Op: "default", H: 4}}}},
+				Reqs: []Req{{"/" + rep("a", d-1), "GET"}, {"/" + rep("a", d), "GET"}, {"/" + rep("a", d+1), "GET"},
+					{"/" + rep("a", 2*d+1), "GET"}, {"/" + rep("a", d) + "/", "GET"}, {"/b/" + rep("a", d-1) + "/x/y", "GET"},
+					{"/b/" + rep("a", d-1) + "/" + rep("c", d), "GET"}, {"/b/" + rep("a", d-2), "GET"}}})
+			// two tiers: the guest router's file at depth d must not pre-empt the user router's directory
+			add(Case{Stream: "deep", Kind: "seq", Mode: "tiers", Seq: []int{-1, -1, 0, 1, -1}, U0: "u", L0: 0,
+				Routers: []RouterDef{
+					{Ops: []RouterOp{{Op: "file", P: rep("a", d), H: 1}}},
+					{Ops: []RouterOp{{Op: "dir", P: rep("a", d+2), H: 2}, {Op: "file", P: rep("a", d+1), H: 3}}},
+				},
+				Reqs: []Req{{"/" + rep("a", d), "GET"}, {"/" + rep("a", d+1), "GET"}, {"/" + rep("a", d+8), "GET"}, {"/" + rep("a", d+2) + "/z", "GET"}}})
+		}
 	}
 	// ... and a Mux / Router / HostMux that keeps being registered on after it served
 	{
@@ -2121,9 +2151,15 @@ func main() {
 	mem := flag.Uint64("mem", 3<<30, "address-space limit of the child")
 	sets := flag.Bool("sets", false, "print the shared path sets and exit")
 	runStdin := flag.Bool("run", false, "run the cases given as JSON lines on stdin (replay / shrinking)")
+	depths := flag.String("depths", "", "comma-separated route depths of the deep stream (besides the fixed ones)")
 	conc := flag.Int("conc", 0, "serve the first N mux/seg/router/host cases concurrently (build with -race)")
 	flag.Parse()
 
+	for _, x := range strings.Split(*depths, ",") {
+		if v, err := strconv.Atoi(strings.TrimSpace(x)); err == nil && v > 1 && v <= 600 {
+			deepDepths = append(deepDepths, v)
+		}
+	}
 	out := hx.NewOut(os.Stdout)
 	if *sets {
 		out.Emit(map[string]interface{}{"small": lifts(smallPaths), "segq": segQueries})
@@ -2191,7 +2227,7 @@ func main() {
 		}
 		return
 	}
-	args := []string{"-seed", strconv.FormatUint(*seed, 10), "-tier", *tier}
+	args := []string{"-seed", strconv.FormatUint(*seed, 10), "-tier", *tier, "-depths", *depths}
 	err := hx.RunIsolated(len(cs), args, *mem,
 		func(i int, raw []byte) { os.Stdout.Write(append(raw, '\n')) },
 		func(i int, why string) {
